@@ -127,6 +127,10 @@ pub struct Case {
     /// the node under test drops the transactions of every block below its tip from memory
     /// (prune_after_blocks = 1): unwinding the old segment reloads its blocks from disk
     pub pruned: bool,
+    /// the node has not completed its initial loading and receives the second candidate block
+    /// before the first (it stores the child, adopts the parent, and then winds the child together
+    /// with whatever comes next)
+    pub loading_swap: bool,
 }
 
 struct Built {
@@ -244,7 +248,7 @@ fn trace_fields(o: &Obs) -> Obs {
 }
 
 fn run_case(c: &Case, rep: &mut Report, seen: &mut BTreeSet<Hash>) {
-    let ctx = json!({"g": c.g, "slow": c.slow, "a": c.a, "b": c.b, "pos": c.pos, "kind": format!("{:?}", c.kind), "own_creator": c.own, "node_is_payer": c.payer, "pruned": c.pruned});
+    let ctx = json!({"g": c.g, "slow": c.slow, "a": c.a, "b": c.b, "pos": c.pos, "kind": format!("{:?}", c.kind), "own_creator": c.own, "node_is_payer": c.payer, "pruned": c.pruned, "loading_swap": c.loading_swap});
     let bt = match build(c) {
         Ok(b) => b,
         Err(e) => {
@@ -259,8 +263,11 @@ fn run_case(c: &Case, rep: &mut Report, seen: &mut BTreeSet<Hash>) {
     if c.pruned {
         ncfg.consensus.prune_after_blocks = 1;
     }
+    if c.loading_swap {
+        ncfg.blockchain.initial_loading_completed = false;
+    }
     let mut n = LedgerNode::new(node_key, ncfg);
-    let kprefix = format!("g{}/{:?}/pos{}of{}/a{}/slow{}{}{}", c.g, c.kind, c.pos + 1, c.b, c.a, c.slow, if c.payer { "/node-is-payer" } else { "" }, if c.pruned { "/pruned" } else { "" });
+    let kprefix = format!("g{}/{:?}/pos{}of{}/a{}/slow{}{}{}", c.g, c.kind, c.pos + 1, c.b, c.a, c.slow, if c.payer { "/node-is-payer" } else { "" }, if c.pruned { "/pruned" } else if c.loading_swap { "/loading-child-before-parent" } else { "" });
     for &i in bt.stem.iter().chain(bt.old.iter()) {
         match n.add_block_bytes(&w.blocks[i].bytes) {
             Outcome::Done(AddRes::AddedLongest) => {}
@@ -286,7 +293,11 @@ fn run_case(c: &Case, rep: &mut Report, seen: &mut BTreeSet<Hash>) {
     let mut rejected_seen = false;
     let mut purged = false;
     let mut trace = vec![];
-    for (j, &ci) in bt.cand.iter().enumerate() {
+    let mut order: Vec<usize> = bt.cand.clone();
+    if c.loading_swap && order.len() >= 2 {
+        order.swap(0, 1);
+    }
+    for (j, &ci) in order.iter().enumerate() {
         let before = n.obs();
         seen.insert(before.digest());
         trace.push(w.blocks[ci].label.clone());
@@ -430,6 +441,62 @@ fn run_case(c: &Case, rep: &mut Report, seen: &mut BTreeSet<Hash>) {
     }
 }
 
+/// For C02: the fork cases whose offending block re-spends an already spent input (or carries a
+/// wrong signed field), with the conservation oracle after every delivery of a candidate block,
+/// refused or not.
+pub fn supply_after_failed_reorgs(rep: &mut Report, tier: &Tier) {
+    let cs: Vec<Case> = cases(tier).into_iter().filter(|c| !c.own && !c.payer && (c.kind == Bad::TxSpent || c.kind == Bad::MerkleAppend || c.kind == Bad::SignedField)).collect();
+    let results = par_map(&cs, workers(), |_, c| {
+        let mut r = rep.child();
+        let Ok(bt) = build(c) else {
+            r.outcome("failed-reorg-supply:case-unbuildable");
+            return r;
+        };
+        let w = &bt.w;
+        let mut cfg = w.cfg.clone();
+        if c.pruned {
+            cfg.consensus.prune_after_blocks = 1;
+        }
+        let mut n = LedgerNode::new(key(9), cfg);
+        for &i in bt.stem.iter().chain(bt.old.iter()) {
+            let _ = n.add_block_bytes(&w.blocks[i].bytes);
+        }
+        let ctx = json!({"g": c.g, "slow": c.slow, "a": c.a, "b": c.b, "pos": c.pos, "kind": format!("{:?}", c.kind), "pruned": c.pruned});
+        r.evaluations += 1;
+        for &ci in bt.cand.iter() {
+            r.transitions += 1;
+            match n.add_block_bytes(&w.blocks[ci].bytes) {
+                Outcome::Done(_) => {}
+                o => {
+                    r.violate(if o.label().contains("total supply") { "supply-panic/failed-reorg" } else { "abort/failed-reorg" }, format!("{}: {}", ctx, o.label()), ctx.clone());
+                    return r;
+                }
+            }
+            let tip = n.tip().1;
+            if let Some(t) = w.index_of(&tip) {
+                if let Err(e) = crate::prod::supply_check(&n, &w.ledgers[t], w.initial_supply, c.g) {
+                    r.violate(&format!("supply-mismatch/after-a-refused-or-adopted-candidate/{:?}", c.kind), format!("{}: {}", ctx, e), ctx.clone());
+                    return r;
+                }
+                // ... and the node's own spendable set adds up to the same in-window total
+                let o = n.obs();
+                let lo = o.tip_id.saturating_sub(c.g);
+                let mine: u128 = o.utxo.iter().filter(|(_, spendable)| *spendable).filter_map(|(k, _)| saito_core::core::consensus::slip::Slip::parse_slip_from_utxokey(k).ok()).filter(|sl| sl.block_id >= lo && sl.slip_type != saito_core::core::consensus::slip::SlipType::Bound).map(|sl| sl.amount as u128).sum();
+                let reference = w.ledgers[t].total_u128(lo);
+                if mine != reference {
+                    r.violate(&format!("spendable-total-differs-from-the-replay/after-a-refused-or-adopted-candidate/{:?}", c.kind), format!("{}: the node's spendable in-window outputs add up to {}, the replay of genesis..tip to {}", ctx, mine, reference), ctx.clone());
+                    return r;
+                }
+                r.outcome("failed-reorg-supply:conserved");
+            }
+        }
+        r
+    });
+    for r in results {
+        rep.merge(r);
+    }
+}
+
 pub fn cases(tier: &Tier) -> Vec<Case> {
     let amax = if tier.thorough { 3 } else { 2 };
     let mut v = vec![];
@@ -452,21 +519,29 @@ pub fn cases(tier: &Tier) -> Vec<Case> {
                         }
                         let slows: Vec<u64> = if b == a + 2 && a >= 1 { vec![200, 300, 400, 625] } else { vec![200] };
                         for slow in slows {
-                            v.push(Case { g: 10, slow, a, b, pos, kind, own, payer: false, pruned: false });
+                            v.push(Case { g: 10, slow, a, b, pos, kind, own, payer: false, pruned: false, loading_swap: false });
                             if !own && (kind == Bad::SignedField || kind == Bad::TxSpent || kind == Bad::TxSig) {
-                                v.push(Case { g: 10, slow, a, b, pos, kind, own, payer: false, pruned: true });
-                                v.push(Case { g: 10, slow, a, b, pos, kind, own, payer: true, pruned: true });
+                                v.push(Case { g: 10, slow, a, b, pos, kind, own, payer: false, pruned: true, loading_swap: false });
+                                v.push(Case { g: 10, slow, a, b, pos, kind, own, payer: true, pruned: true, loading_swap: false });
                             }
                             if kind == Bad::SignedField || (tier.thorough && kind == Bad::TxSpent) {
-                                v.push(Case { g: 3, slow, a, b, pos, kind, own, payer: false, pruned: false });
+                                v.push(Case { g: 3, slow, a, b, pos, kind, own, payer: false, pruned: false, loading_swap: false });
                             }
                             if !own && (kind == Bad::SignedField || kind == Bad::TxSpent || kind == Bad::GtDensity) {
-                                v.push(Case { g: 10, slow, a, b, pos, kind, own, payer: true, pruned: false });
+                                v.push(Case { g: 10, slow, a, b, pos, kind, own, payer: true, pruned: false, loading_swap: false });
                             }
                         }
                     }
                 }
             }
+        }
+    }
+    // a loading node that gets the second candidate before the first, nothing to unwind (a = 0),
+    // third candidate invalid: the stored child is wound with it and unwound again. At genesis
+    // period 3 the child has id 6, the first slot of the ring
+    for g in [10u64, 3] {
+        for kind in [Bad::SignedField, Bad::TxSpent, Bad::TxSig] {
+            v.push(Case { g, slow: 200, a: 0, b: 3, pos: 2, kind, own: false, payer: false, pruned: false, loading_swap: true });
         }
     }
     v
@@ -479,7 +554,7 @@ pub fn main(tier: Tier, replay: Option<String>) -> i32 {
         let v: Value = serde_json::from_str(&s).expect("json");
         let ctx = &v["case"]["ctx"];
         let kind = KINDS.iter().find(|k| format!("{:?}", k) == ctx["kind"].as_str().unwrap()).cloned().unwrap();
-        let c = Case { g: ctx["g"].as_u64().unwrap_or(10), slow: ctx["slow"].as_u64().unwrap_or(200), a: ctx["a"].as_u64().unwrap() as usize, b: ctx["b"].as_u64().unwrap() as usize, pos: ctx["pos"].as_u64().unwrap() as usize, kind, own: ctx["own_creator"].as_bool().unwrap(), payer: ctx["node_is_payer"].as_bool().unwrap_or(false), pruned: ctx["pruned"].as_bool().unwrap_or(false) };
+        let c = Case { g: ctx["g"].as_u64().unwrap_or(10), slow: ctx["slow"].as_u64().unwrap_or(200), a: ctx["a"].as_u64().unwrap() as usize, b: ctx["b"].as_u64().unwrap() as usize, pos: ctx["pos"].as_u64().unwrap() as usize, kind, own: ctx["own_creator"].as_bool().unwrap(), payer: ctx["node_is_payer"].as_bool().unwrap_or(false), pruned: ctx["pruned"].as_bool().unwrap_or(false), loading_swap: ctx["loading_swap"].as_bool().unwrap_or(false) };
         let mut outs = vec![];
         for _ in 0..2 {
             let mut r = rep.child();
